@@ -26,8 +26,12 @@ func memMachine(mode string, seed int64) *machine.Machine {
 	m := machine.New(cartImage(memCart), machine.Options{NoCPU: true})
 	switch mode {
 	case "poweron":
+		// the CPU's first machine cycle is the opcode fetch at 0100: the PPU has ticked before any access that could reach OAM
+		m.Hardware()
 	case "lcdoff":
 		m.QuietLCD()
+	case "lcdoff2":
+		offInScan(m, rand.New(rand.NewSource(seed)))
 	case "random":
 		rng := rand.New(rand.NewSource(seed))
 		for i := 0; i < 300; i++ {
@@ -41,10 +45,36 @@ func memMachine(mode string, seed int64) *machine.Machine {
 			}
 		}
 		m.M.Write(0x0000, 0x0a)
-		m.QuietLCD()
+		if seed%2 == 0 {
+			m.QuietLCD()
+		} else {
+			offInScan(m, rng)
+		}
 	}
 	return m
 }
+
+// offInScan switches the LCD off in the middle of the OAM scan (mode 2) of a
+// visible line, a random number of cycles into it: with the LCD off the OAM
+// must be plain memory however it was switched off.
+func offInScan(m *machine.Machine, rng *rand.Rand) {
+	m.P.WriteLCDC(0x91)
+	for i := 0; i < 600+rng.Intn(3000); i++ {
+		m.Hardware()
+	}
+	for i := 0; i < 2000 && m.P.ReadSTAT()&3 != 2; i++ {
+		m.Hardware()
+	}
+	for k := rng.Intn(19); k > 0; k-- {
+		m.Hardware()
+	}
+	m.P.WriteLCDC(m.P.ReadLCDC() & 0x7f)
+}
+
+// busDone is what the CPU does at the end of every machine cycle in which it
+// ran a sub-instruction: it lets the OAM apply the corruption armed by an
+// access during the scan. With the LCD off nothing may be armed.
+func busDone(m *machine.Machine) { m.O.Corrupt() }
 
 func memExec(id, mode string, seed int64, ops []memOp) *trace.Scenario {
 	var m *machine.Machine
@@ -62,17 +92,27 @@ func memExec(id, mode string, seed int64, ops []memOp) *trace.Scenario {
 			switch o.k {
 			case "w":
 				m.M.Write(uint16(o.a), uint8(o.v))
+				busDone(m)
 				ev = []any{"w", o.a, o.v}
 			case "r":
 				ev = []any{"r", o.a, int(m.M.Read(uint16(o.a)))}
+				busDone(m)
+			case "hot":
+				hotState(m, rand.New(rand.NewSource(int64(o.a)<<8|int64(o.v))))
+				ev = []any{"hot", o.a, o.v}
 			case "tick":
 				for i := 0; i < o.a; i++ {
 					m.Hardware()
 				}
 				ev = []any{"tick", o.a}
 			case "wf":
+				busDone(m) // flush whatever an earlier access armed, before the first read-out
+				lcdOff := m.P.ReadLCDC()&0x80 == 0
 				before := snapshot64(m)
 				m.M.Write(uint16(o.a), uint8(o.v))
+				if lcdOff {
+					busDone(m) // with the LCD on the OAM bug is C17's business, not a footprint
+				}
 				after := snapshot64(m)
 				diffs := [][]int{}
 				for a := 0; a < 0x10000; a++ {
@@ -96,10 +136,58 @@ func memExec(id, mode string, seed int64, ops []memOp) *trace.Scenario {
 	return sc
 }
 
+// hotState puts the machine into a state in which register writes have the
+// most side effects to get wrong: sound on with channels running, the timer
+// within a few cycles of an overflow, a serial transfer under way.
+func hotState(m *machine.Machine, rng *rand.Rand) {
+	w := func(a, v int) { m.M.Write(uint16(a), uint8(v)); busDone(m) }
+	if rng.Intn(4) != 0 {
+		w(0xff26, 0x80)
+		w(0xff25, rng.Intn(256))
+		w(0xff24, rng.Intn(256))
+		for ch := 0; ch < 4; ch++ {
+			if rng.Intn(4) == 0 {
+				continue
+			}
+			base := 0xff10 + 5*ch
+			switch ch {
+			case 0:
+				w(base, rng.Intn(128))
+				w(base+1, rng.Intn(256))
+				w(base+2, 0x08|rng.Intn(256))
+			case 1:
+				w(base+1, rng.Intn(256))
+				w(base+2, 0x08|rng.Intn(256))
+			case 2:
+				w(base, 0x80)
+				w(base+1, rng.Intn(200))
+				w(base+2, rng.Intn(256))
+			case 3:
+				w(base+1, rng.Intn(56))
+				w(base+2, 0x08|rng.Intn(256))
+			}
+			w(base+3, rng.Intn(256))
+			w(base+4, 0x80|rng.Intn(0x48)&0x47)
+		}
+	}
+	if rng.Intn(3) != 0 {
+		w(0xff06, rng.Intn(256))
+		w(0xff07, 0x05)
+		w(0xff05, 0xfd+rng.Intn(3))
+	}
+	if rng.Intn(3) == 0 {
+		w(0xff01, rng.Intn(256))
+		w(0xff02, 0x81)
+	}
+	for k := rng.Intn(24); k > 0; k-- {
+		m.Hardware()
+	}
+}
+
 func snapshot64(m *machine.Machine) []byte {
 	b := make([]byte, 0x10000)
 	for a := 0; a < 0x10000; a++ {
-		b[a] = m.M.Read(uint16(a))
+		b[a] = m.M.VerifPeek(uint16(a)) // Mapper.Read without arming the OAM-bug logic
 	}
 	return b
 }
@@ -154,7 +242,7 @@ func memGen(c *Ctx) {
 		jobs = append(jobs, job{fmt.Sprintf("mem-%s-%s-%d", fam, mode, n), mode, seed, ops})
 		n++
 	}
-	modes := []string{"lcdoff", "random", "poweron"}
+	modes := []string{"lcdoff", "random", "poweron", "lcdoff2"}
 	if c.Want("single") {
 		// exhaustive single writes: every edge address x values, read back at once (and the mirror / neighbours)
 		rng := c.Rand(601)
@@ -197,7 +285,7 @@ func memGen(c *Ctx) {
 		if c.Thorough() {
 			stride = 1
 		}
-		for _, mode := range []string{"lcdoff", "random"} {
+		for _, mode := range []string{"lcdoff", "random", "lcdoff2"} {
 			for _, rg := range [][2]int{{0x8000, 0xa000}, {0xc000, 0xe000}, {0xe000, 0xfe00}, {0xfe00, 0xff00}, {0xff80, 0x10000}} {
 				var ops []memOp
 				for a := rg[0] + rng.Intn(stride); a < rg[1]; a += stride {
@@ -293,7 +381,7 @@ func memGen(c *Ctx) {
 			nv = 24
 			nrand = 30000
 		}
-		for _, mode := range []string{"random", "lcdoff", "poweron", "random"} {
+		for _, mode := range []string{"random", "lcdoff", "poweron", "random", "lcdoff2"} {
 			seed := int64(rng.Intn(1 << 30))
 			var ops []memOp
 			flush := func() {
@@ -329,6 +417,34 @@ func memGen(c *Ctx) {
 			}
 			flush()
 		}
+		// hot states: sound channels running, the timer about to overflow, a serial transfer under way
+		nh := 4
+		if c.Thorough() {
+			nh = 48
+		}
+		for _, mode := range []string{"poweron", "lcdoff"} {
+			seed := int64(rng.Intn(1 << 30))
+			var ops []memOp
+			for a := 0xff00; a <= 0xff80; a++ {
+				if a == 0xff46 {
+					continue
+				}
+				for k := 0; k < nh; k++ {
+					v := []int{0x00, 0xff, 0x80, 0x7f}[k%4]
+					if k >= 4 {
+						v = rng.Intn(256)
+					}
+					ops = append(ops, memOp{"hot", rng.Intn(1 << 20), rng.Intn(256)}, memOp{"wf", a, v})
+					if len(ops) >= 40 {
+						add("fp", mode, seed, ops)
+						ops = nil
+					}
+				}
+			}
+			if len(ops) > 0 {
+				add("fp", mode, seed, ops)
+			}
+		}
 	}
 	// run the jobs on all cores (no CPU objects are involved, so no package-level state is shared)
 	results := make([]*trace.Scenario, len(jobs))
@@ -356,7 +472,7 @@ func memRerun(c *Ctx) {
 		for _, e := range s.Ev {
 			k := trace.Str(e[0])
 			switch k {
-			case "w", "wf":
+			case "w", "wf", "hot":
 				ops = append(ops, memOp{k, trace.Int(e[1]), trace.Int(e[2])})
 			case "r", "tick":
 				ops = append(ops, memOp{k, trace.Int(e[1]), 0})
